@@ -24,6 +24,9 @@ func checkC11(c *Ctx, r *Report) {
 	c11f(c, r)
 	c11g(c, r)
 	c11Flows(c, r)
+	// a character literal's token is the character between its quotes: the lexer reads the literal through its closing
+	// quote before it emits (C10.d)
+	includeSome(r, "C11.d", func(sub *Report) { c10CharLiteralExtent(c, sub, "C10.d") }, "closing-quote")
 }
 
 func c11a(c *Ctx, r *Report) {
